@@ -362,6 +362,7 @@ func (n *Node) Focus() {
 		return
 	}
 	focused = n
+	n.DPoS.VerifFocus()
 	sdb := n.CS.SDB().GetStateDB()
 	scs, err := statedb.GetSystemAccountState(sdb)
 	if err != nil {
@@ -376,6 +377,9 @@ func (n *Node) Focus() {
 // Stop ends the node's actors. The stores stay (for a restart with NewNode).
 func (n *Node) Stop() {
 	n.CS.VerifStop()
+	if n.DPoS != nil {
+		n.DPoS.VerifForget()
+	}
 	if focused == n {
 		focused = nil
 	}
@@ -514,8 +518,15 @@ type Built struct {
 // producer does. The block is signed by producer p for slot SlotFor(height,p)
 // with `variant`. It is NOT connected.
 func (n *Node) Produce(parent *types.Block, txs []*types.Tx, p int, variant int, confirms uint64) (*Built, error) {
+	return n.ProduceAt(parent, txs, p, SlotTs(n.Net.SlotFor(parent.BlockNo()+1, p), variant), confirms)
+}
+
+// SlotBase is an absolute slot that belongs to producer 0.
+func (net Net) SlotBase() int64 { return Slot0 - Slot0%int64(net.NBP) }
+
+// ProduceAt is Produce with an explicit timestamp (which must lie in a slot owned by p).
+func (n *Node) ProduceAt(parent *types.Block, txs []*types.Tx, p int, ts int64, confirms uint64) (*Built, error) {
 	n.Focus()
-	ts := SlotTs(n.Net.SlotFor(parent.BlockNo()+1, p), variant)
 	bi := types.NewBlockHeaderInfoFromPrevBlock(parent, ts, n.Cfg.Hardfork)
 	bs := n.CS.SDB().NewBlockState(parent.GetHeader().GetBlocksRootHash(), state.SetPrevBlockHash(parent.BlockHash()))
 	bs.SetGasPrice(system.GetGasPrice())
